@@ -369,8 +369,15 @@ def inline_new_aliases(repo, ref):
                 continue
             if writers is None:
                 writers = _attr_writers(repo)
-            if any(q in writers.get(a, ()) for a in attrs) or q in writers.get("*", ()):
+            if q in writers.get("*", ()):
                 continue
+            if any(q in writers.get(a, ()) for a in attrs):
+                # the function itself stores an attribute of the chain: harmless only when every such store is executed before
+                # the binding and never again (it precedes the binding in the text and neither is inside a loop)
+                own = [n for n in walk_own(fi.node) if (isinstance(n, ast.Attribute) and isinstance(n.ctx, (ast.Store, ast.Del)) and n.attr in attrs)]
+                in_loop = any(isinstance(a_, (ast.For, ast.While, ast.AsyncFor)) for a_ in _ancestors(st, fi.node))
+                if in_loop or any(_pos(n) >= _pos(st) for n in own):
+                    continue
             # calls executed between the binding and the last read (over-approximated: every call in the following statements
             # of the block up to the last statement that reads the alias) must not reach a writer of a chain attribute
             last = max(i for i, s in enumerate(blk) if i > idx and any(id(x) in {id(y) for y in ast.walk(s)} for x in loads))
@@ -379,6 +386,16 @@ def inline_new_aliases(repo, ref):
             for a in attrs:
                 bad_fns |= writers.get(a, set())
             bad_fns |= writers.get("*", set())
+            if len(ch) == 2 and root == "self" and fi.cls is not None:
+                # self.<attr> of an instance of this class: a method of an unrelated class that stores the same attribute name
+                # on *its* self writes another object
+                related = {fi.cls} | set(_mro(fi.cls)) | {c for c in repo.classes.values() if fi.cls in _mro(c)}
+                keep = set()
+                for wq in bad_fns:
+                    w = repo.funcs.get(wq)
+                    if w is None or w.cls is None or w.cls in related or not _stores_only_on_self(w, ch[1]):
+                        keep.add(wq)
+                bad_fns = keep
             if calls and bad_fns:
                 if cg is None:
                     from .callgraph import CallGraph
@@ -1039,3 +1056,14 @@ def _drop_noops(stmts):
                 st.body, st.orelse = st.orelse, []
         out.append(st)
     return out
+
+
+def _stores_only_on_self(fi, attr):
+    recv = fi.params[0] if fi.params else None
+    for n in walk_own(fi.node):
+        if isinstance(n, ast.Attribute) and isinstance(n.ctx, (ast.Store, ast.Del)) and n.attr == attr:
+            if not (isinstance(n.value, ast.Name) and n.value.id == recv):
+                return False
+        if isinstance(n, ast.Call) and isinstance(n.func, ast.Name) and n.func.id in ("setattr", "delattr"):
+            return False
+    return True
